@@ -620,6 +620,21 @@ func cmp(op token.Token, a, b *Term) *Term {
 			return Bool(constant.Compare(a.C, op, b.C))
 		}
 	}
+	// aggregates compare component-wise
+	if op == token.EQL || op == token.NEQ {
+		ea, eb := expandAgg(a), expandAgg(b)
+		if ea != nil && eb != nil && len(ea) == len(eb) {
+			var parts []*Term
+			for i := range ea {
+				parts = append(parts, cmp(token.EQL, ea[i], eb[i]))
+			}
+			r := And(parts...)
+			if op == token.NEQ {
+				return Not(r)
+			}
+			return r
+		}
+	}
 	// known non-nil things compared with nil
 	nn := func(x *Term) bool {
 		switch x.Op {
@@ -991,7 +1006,7 @@ func condsContradict(cs []*Term) bool {
 	for _, c := range cs {
 		collect(c)
 	}
-	if len(idx) > 14 {
+	if len(idx) > 20 {
 		// too many atoms for a truth table: syntactic test only
 		m := map[string]bool{}
 		for _, c := range cs {
@@ -1285,4 +1300,34 @@ func DeepCases(t *Term, max int) []TermCase {
 		return nil
 	}
 	return out
+}
+
+// expandAgg returns the components of an aggregate value (agg, or zero of a
+// struct/array type), or nil.
+func expandAgg(t *Term) []*Term {
+	switch t.Op {
+	case "agg":
+		return t.Args
+	case "zero":
+		if t.T == nil {
+			return nil
+		}
+		switch u := t.T.Underlying().(type) {
+		case *types.Struct:
+			out := make([]*Term, u.NumFields())
+			for i := range out {
+				out[i] = Zero(u.Field(i).Type())
+			}
+			return out
+		case *types.Array:
+			if u.Len() <= 64 {
+				out := make([]*Term, u.Len())
+				for i := range out {
+					out[i] = Zero(u.Elem())
+				}
+				return out
+			}
+		}
+	}
+	return nil
 }
